@@ -34,7 +34,7 @@ class LoopCheck(Check):
     }
 
     def schedules(self, tier):
-        return ["fixed1", "fixed2", "adaptive_half"] if tier == "quick" else ["fixed1", "fixed2", "fixed3", "adaptive_half", "adaptive_cap2", "adaptive_free"]
+        return ["fixed1", "fixed2", "adaptive_half"] if tier == "quick" else ["fixed1", "fixed2", "fixed4", "adaptive_half", "adaptive_cap2", "adaptive_free"]
 
     def configs(self, tier):
         out = []
@@ -53,11 +53,12 @@ class LoopCheck(Check):
                             "schedule": sched,
                             "n_final": n_final,
                             "sampler": s,
-                            "N": 2,
+                            "N": 3 if (sched.startswith("adaptive") and tier != "quick") else 2,
                             "d": 1,
-                            "T": 2 if tier == "quick" else 3,
+                            "T": 4 if sched == "fixed4" else (2 if tier == "quick" else 3),
                             "D": 4,
                             "timeout_ms": 120000,
+                            "split_depth": 8 if sched.startswith("adaptive") else 2,
                         }
                         out.append(c)
         return out
@@ -110,6 +111,146 @@ class LoopCheck(Check):
         if env.stopped and cfg["schedule"] not in loop_checks.TERMINATING:
             raise core.PathCut()
         loop_checks.check_run(ctx, env, self.props)
+        return env
+
+    # -- resume (C11; the per-run clauses again on every resumed run) ----------
+    def flow_resume(self, ctx, cfg, fns, tmp):
+        P = self.props
+        ref = self.new_env(ctx, cfg, fns)
+        ref.run(checkpoint="callback", checkpoint_every=1)
+        if ref.stopped:
+            if cfg["schedule"] not in loop_checks.TERMINATING:
+                raise core.PathCut()
+            loop_checks.check_run(ctx, ref, P)
+            return
+        loop_checks.check_run(ctx, ref, P - {"C11"})
+        ctx.prove(len(ref.checkpoints) >= 1, "c11/has_checkpoints")
+        routes = cfg.get("routes", ["bytes"])
+        for k, ck in enumerate(ref.checkpoints):
+            for route in routes:
+                if route == "file":
+                    continue
+                src = ck["bytes"] if route == "bytes" else pickle.loads(ck["bytes"])
+                res = self.new_env(ctx, cfg, fns, tag=f"r{k}", rng=SymRng(ctx, "other", 77))
+                res.kernel_offset = ck["n_acc"]
+                res.run(resume_from=src, checkpoint="callback", checkpoint_every=1)
+                d = {"checkpoint": k, "iteration": ck["iteration"], "route": route}
+                if "C11" in P:
+                    loop_checks.compare_runs(ctx, ref, res, "c11/resume", detail=d)
+                loop_checks.check_run(ctx, res, P - {"C11", "C06"}, label_suffix="@resumed")
+        if "file" in routes:
+            self._crash_points(ctx, cfg, fns, tmp, ref)
+
+    def _crash_points(self, ctx, cfg, fns, tmp, ref):
+        """Fault injected at every likelihood call of a run that checkpoints to
+        a real HDF5 file; the file is then inspected (C12) and resumed from (C11)."""
+        P = self.props
+        total = len(ref.target.ll_calls)
+        for c in range(1, total + 1):
+            path = os.path.join(tmp, f"crash{c}.h5")
+            w = self.new_env(ctx, cfg, fns)
+            w.target.fail_at = c
+            w.target.check_c17 = False
+            w.run(checkpoint_every=1, checkpoint_file=path)
+            if w.exception is None:
+                continue
+            last = w.sampler.last_checkpoint_bytes
+            d = {"crash_at_likelihood_call": c}
+            if last is None:
+                continue
+            ctx.reach("c12/file_after_fault")
+            if "C12" in P:
+                ok = os.path.exists(path)
+                ctx.prove(ok, "c12/file_exists", detail=d)
+                if ok:
+                    import h5py
+
+                    with h5py.File(path, "r") as f:
+                        blob = f["checkpoint"]["state"][...].tobytes()
+                    ctx.prove(blob == last, "c12/file_is_latest_payload", detail={"file_bytes": len(blob), "latest_bytes": len(last), **d})
+            if "C11" in P and os.path.exists(path):
+                res = self.new_env(ctx, cfg, fns, tag=f"c{c}", rng=SymRng(ctx, "other", 77))
+                res.kernel_offset = len(pickle.loads(last)["history"].mcmc_acceptance)
+                res.run(resume_from=path)
+                loop_checks.compare_runs(ctx, ref, res, "c11/resume_file", detail=d)
+
+    # -- cadence (C12) -----------------------------------------------------------
+    def flow_cadence(self, ctx, cfg, fns, tmp):
+        dom = cfg.get("every_values", [1, 2, 3])
+        ce = sx.sym_int("every", dom)
+        env = self.new_env(ctx, cfg, fns)
+        env.run(checkpoint="callback", checkpoint_every=ce)
+        if env.stopped:
+            raise core.PathCut()
+        hist = env.sampler.history
+        K = len(hist.beta)
+        its = [c["iteration"] for c in env.checkpoints]
+        t = sx.term(ce)
+        for v in dom:
+            want = [i for i in range(1, K + 1) if i % v == 0] + [K]
+            ctx.prove(z3.Implies(t == v, z3.BoolVal(its == want)), "c12/cadence", detail={"every": v, "written_at": its, "expected": want, "iterations": K})
+        betas = [0.0] + [float(b) for b in hist.beta]
+        for j, c in enumerate(env.checkpoints):
+            it = c["iteration"]
+            last = j == len(env.checkpoints) - 1
+            ctx.prove(c["beta"] == betas[it], "c12/payload_current", detail={"checkpoint": j, "beta": c["beta"], "expected": betas[it]})
+            ctx.prove(c["n_beta"] == it, "c12/payload_current", detail={"checkpoint": j, "history_len": c["n_beta"]})
+            pop = env.final if (last and cfg.get("n_final")) else hist.sample_history[it]
+            loop_checks.eq_terms(ctx, c["samples_x"], sx.terms(pop.x), "c12/payload_population", detail={"checkpoint": j})
+            if "C10" in self.props:
+                pass
+        return env
+
+    # -- random sources (C20) ------------------------------------------------------
+    def flow_rng(self, ctx, cfg, fns, tmp):
+        via = cfg.get("rng_via", "sample")
+        runs = []
+        for rep in range(2):
+            n0 = len(smc_loop.KERNEL_LOG["rng_constructed"])
+            g = SymRng(ctx, "user", 0)
+            if via == "aspire":
+                env = self._run_via_aspire(ctx, cfg, fns, g)
+            else:
+                env = self.new_env(ctx, cfg, fns, rng=g, rng_via=via)
+                env.run()
+            if env.stopped:
+                raise core.PathCut()
+            fresh = len(smc_loop.KERNEL_LOG["rng_constructed"]) - n0
+            d = {"via": via, "fresh_generators": fresh, "user_draws": len(g.calls)}
+            ctx.prove(fresh == 0, "c20/no_fresh_generator", detail=d)
+            ctx.prove(env.sampler.rng is g, "c20/user_generator_used", detail=d)
+            ctx.prove(len(g.calls) >= 1, "c20/user_generator_drawn_from", detail=d)
+            runs.append(env)
+        if all(r.sampler.rng is not None and getattr(r.sampler.rng, "stream", None) == "user" for r in runs):
+            loop_checks.compare_runs(ctx, runs[0], runs[1], "c20/identical", detail={"via": via})
+        else:
+            # the sampler did not keep the user's generator (reported above):
+            # identical output cannot be expected from two fresh generators
+            ctx.reach("c20/identical_skipped_generator_replaced")
+
+    def _run_via_aspire(self, ctx, cfg, fns, g):
+        """The real Aspire.sample_posterior keyword routing (aspire.py)."""
+        from aspire.aspire import Aspire
+
+        env = smc_loop.RunEnv(ctx, cfg, fns, tag="ref", rng=g, props=self.props)
+        d = env.d
+        a = Aspire(
+            log_likelihood=env.target.log_likelihood,
+            log_prior=env.target.log_prior,
+            dims=d,
+            parameters=[f"p{k}" for k in range(d)],
+            flow=env.flow,
+            xp=sx,
+        )
+        smc_loop.LOOP.current = env
+        kw = dict(smc_loop.SCHEDULES[cfg["schedule"]])
+        kw["sampler_kwargs"] = {"n_steps": 1}
+        env.sampler_name = "MiniPCNSMC"
+        try:
+            env.final = a.sample_posterior(n_samples=env.N, sampler="smc", rng=g, preconditioning="none", **kw)
+        except smc_loop._Stop:
+            env.stopped = True
+        env.sampler = a.sampler
         return env
 
     def to_cex(self, fl):
